@@ -160,8 +160,72 @@ def SNet.atMoment (sn : SNet) (m : Nat) : SNet :=
   let ls := sn.links.take m
   ⟨ls, sn.pos.filter fun (i, _) => ls.any fun l => l.a == i || l.b == i⟩
 
+/-! ### the priority queue on its own: `heapq` lines (tie of `heapQ` to container/heap + gonum's `aStarQueue`) -/
+
+inductive HOp | push (id : Nat) (g f : Rat) | upd (id : Nat) (g f : Rat) | pop
+
+def pHOp : P HOp := do
+  let k ← tok
+  if k == "P" then
+    let i ← pNat; let g ← pRat; let f ← pRat; pure (.push i g f)
+  else if k == "U" then
+    let i ← pNat; let g ← pRat; let f ← pRat; pure (.upd i g f)
+  else if k == "O" then pure .pop
+  else failure
+
+def pHRes : P (Int × List (Entry Rat)) := do
+  expect "="
+  let m ← pInt
+  let l ← pCount (do let i ← pNat; let g ← pRat; let f ← pRat; pure (⟨i, g, f⟩ : Entry Rat))
+  pure (m, l)
+
+def sameEntry (a b : Entry Rat) : Bool := a.node == b.node && a.g == b.g && a.f == b.f
+def sameLayout (a b : List (Entry Rat)) : Bool := a.length == b.length && (a.zip b).all fun (x, y) => sameEntry x y
+def sameSet (a b : List (Entry Rat)) : Bool := a.length == b.length && a.all fun x => b.any (sameEntry x)
+
+/-- Spec side (the contract `QueueSpec`, judged on the implementation's own layouts): a push adds the entry,
+an update replaces the entry of that node, a pop removes an entry of minimal fscore; model side: the
+layouts of `heapQ` must be the implementation's, slot by slot. -/
+def judgeHeap (ops : List HOp) (res : List (Int × List (Entry Rat))) : String := Id.run do
+  let mut model : List (Entry Rat) := []
+  let mut prev : List (Entry Rat) := []
+  let mut k := 0
+  for (o, (m, lay)) in ops.zip res do
+    match o with
+    | .push i g f =>
+      if !sameSet lay (prev ++ [⟨i, g, f⟩]) then return s!"SPEC heapq op{k}:push-does-not-add-exactly-the-entry"
+      model := heapQ.push model ⟨i, g, f⟩
+    | .upd i g f =>
+      if !sameSet lay (prev.map fun e => if e.node == i then ⟨i, g, f⟩ else e) then
+        return s!"SPEC heapq op{k}:update-does-not-replace-exactly-the-entry-of-the-node"
+      model := heapQ.update model i g f
+    | .pop =>
+      match prev.find? (fun e => (e.node : Int) == m) with
+      | none => return s!"SPEC heapq op{k}:popped-entry-was-not-queued"
+      | some e =>
+        if prev.any (fun x => x.f < e.f) then return s!"SPEC heapq op{k}:popped-entry-is-not-of-minimal-fscore"
+        if !sameSet lay (prev.filter fun x => x.node != e.node) then return s!"SPEC heapq op{k}:pop-does-not-leave-exactly-the-other-entries"
+      match heapQ.pop model with
+      | none => return s!"DIFF heapq op{k}:model-queue-is-empty"
+      | some (e, rest) =>
+        if (e.node : Int) != m then return s!"DIFF heapq op{k}:model-pops-node-{e.node}-impl-{m}"
+        model := rest
+    if !sameLayout model lay then return s!"DIFF heapq op{k}:slice-layout-differs-from-the-model"
+    prev := lay
+    k := k + 1
+  return (if ops.length ≤ 12 then "OK heapq-small" else if ops.length ≤ 100 then "OK heapq" else "OK heapq-long")
+
+def judgeHeapLine (lhs rhs : Tok) : String :=
+  match (do expect "heapq"; pCount pHOp) lhs with
+  | none => "BAD parse-heapq"
+  | some (ops, _) =>
+    match (do expect "H"; pRep pHRes ops.length) rhs with
+    | none => s!"DIFF heapq unparsable-result-or-indexOf-inconsistent({" ".intercalate (rhs.take 6)})"
+    | some (res, _) => judgeHeap ops res
+
 def judgeLine (line : String) : String :=
   let (lhs, rhs) := splitArrow (tokens line)
+  if lhs.head? == some "heapq" then judgeHeapLine lhs rhs else
   match pCase lhs with
   | none => "BAD parse-case"
   | some (c, _) =>
